@@ -72,7 +72,8 @@ def get_system(options: model.Options) -> model.System:
     # step 3: move the system to the desired state
 
     if system.options.projectname is None:
-        name = '/'.join(system.root_names)
+        # root_names is a set: sort it, the guessed name must not depend on the hash seed.
+        name = '/'.join(sorted(system.root_names))
         system.msg('warning', f"Guessing '{name}' for project name.", thresh=0)
         system.projectname = name
     else:
